@@ -168,8 +168,10 @@ func (e *lkEp) op(c *Ctx, line string) {
 			c.Emit(line, "not-quiescent", true)
 			return
 		}
+		if e.orphans(c, line) {
+			return // nothing after the accident is comparable, this op's answer included
+		}
 		c.Emit(line, e.state(c, line), true)
-		e.orphans(c, line)
 	}
 	bg := context.Background()
 	switch w[0] {
@@ -550,6 +552,9 @@ func (e *lkEp) op(c *Ctx, line string) {
 			c.Emit(line, "not-quiescent", true)
 			return
 		}
+		if e.orphans(c, line) {
+			return
+		}
 		if ans == "" {
 			ans = fmt.Sprintf("retries=%d", e.acqCalls-before)
 		}
@@ -605,7 +610,7 @@ var acqShas = map[string]bool{
 // more, so no invalidation can wake it (known finding, scheduler dependent: the monitor goroutine of the
 // caller's failed attempt ran before try() counted the failure and released the gate as if the lock had been
 // held). The episode ends here: what follows would depend on that accident.
-func (e *lkEp) orphans(c *Ctx, line string) {
+func (e *lkEp) orphans(c *Ctx, line string) bool {
 	e.mu.Lock()
 	var ls []int
 	for l, n := range e.waitL {
@@ -625,6 +630,7 @@ func (e *lkEp) orphans(c *Ctx, line string) {
 			e.skip = true
 		}
 	}
+	return e.skip
 }
 
 // logTail: the last n server calls (caller holds srv.mu): connection, script/command, key, reply
